@@ -88,7 +88,10 @@ def jidOracle (m : List (String × Option String)) (v : String) : Option String 
   | none => none
 
 def decNs (s : String) : Option String :=
-  if s == "c" then some nsClient else if s == "s" then some nsServer else none
+  if s == "c" || s == "cw" then some nsClient else if s == "s" || s == "sw" then some nsServer else none
+
+/-- `cw` / `sw`: the session uses the WebSocket subprotocol -/
+def decWs (s : String) : Bool := s == "cw" || s == "sw"
 
 def encObs : Obs → String
   | .tok t => "t" ++ encTok t
@@ -107,43 +110,53 @@ def encStop : Stop → String
   | .clean => "clean"
   | .error e => e.name
 
-def decPend (s : String) : Option Pend :=
+/-- `id=space=loc` (hex): a request that is waiting; a fourth field `f` = its transmission
+failed, `g` = its caller gave up waiting before the input was served -/
+def decPend (s : String) : Option Req :=
   match s.splitOn "=" with
   | [i, sp, lo] => do
     let i ← unhexF i; let sp ← unhexF sp; let lo ← unhexF lo
-    pure ⟨i, ⟨sp, lo⟩⟩
+    pure ⟨i, ⟨sp, lo⟩, .waiting⟩
+  | [i, sp, lo, f] => do
+    let i ← unhexF i; let sp ← unhexF sp; let lo ← unhexF lo
+    if f == "f" then pure ⟨i, ⟨sp, lo⟩, .sendFailed⟩
+    else if f == "g" then pure ⟨i, ⟨sp, lo⟩, .gaveUp⟩ else none
   | _ => none
 
 def decPends (s : String) : Option (List Pend) :=
-  if s == "-" then some [] else mapM? decPend (s.splitOn ",")
+  if s == "-" then some [] else (mapM? decPend (s.splitOn ",")).map tableOf
 
 /-- `servep <ns> <localBare> <jidmap> <pending> <toks> <progs>`; pending = `,`-joined `id=space=loc` (hex) -/
 def handleServeP (args : List String) : Option OutP :=
   match args with
   | [ns, lb, jm, pd, toks, progs] => do
+    let ws := decWs ns
     let ns ← decNs ns
     let lb ← unhexF (if lb == "-" then "" else lb)
     let jm ← decJidMap jm
     let pd ← decPends pd
-    let toks ← decToks toks
+    let toks ← (decToks toks).map (wsInput ws)
     let progs ← decProgs progs
     pure (serveP { ns := ns, localBare := lb, jidCanon := jidOracle jm } pd toks progs)
   | _ => none
 
 /-- `servex <closed> <ns> <localBare> <jidmap> <toks> <progs>`: the output is already closed when
-Serve starts (`closed` = 1) or a program closes it (`ret,c,op…`) -/
+Serve starts (`closed` = 1), was left inside an element by an abandoned Send (2), or a program closes it (`ret,c,op…`) -/
 def handleServeX (args : List String) : Option Out :=
   match args with
   | [cl, ns, lb, jm, toks, progs] => do
     -- `0` / `1`, optionally followed by `d<digits>`: SetCloseDeadline calls before Serve
     let pre := decDls (cl.drop 1).toString
-    let cl ← parseBool (cl.take 1).toString
+    let c1 := (cl.take 1).toString
+    let st ← (if c1 == "0" then some OutSt.opn else if c1 == "1" then some OutSt.closed
+              else if c1 == "2" then some OutSt.broken else none)
+    let ws := decWs ns
     let ns ← decNs ns
     let lb ← unhexF (if lb == "-" then "" else lb)
     let jm ← decJidMap jm
-    let toks ← decToks toks
+    let toks ← (decToks toks).map (wsInput ws)
     let progs ← decProgs progs
-    pure (serveCD { ns := ns, localBare := lb, jidCanon := jidOracle jm } cl pre toks progs)
+    pure (serveCS { ns := ns, localBare := lb, jidCanon := jidOracle jm } st pre toks progs)
   | _ => none
 
 /-- `servew <left> <ns> <localBare> <jidmap> <toks> <progs>`: the connection accepts `left` more writes -/
@@ -151,10 +164,11 @@ def handleServeW (args : List String) : Option Out :=
   match args with
   | [left, ns, lb, jm, toks, progs] => do
     let left ← left.toNat?
+    let ws := decWs ns
     let ns ← decNs ns
     let lb ← unhexF (if lb == "-" then "" else lb)
     let jm ← decJidMap jm
-    let toks ← decToks toks
+    let toks ← (decToks toks).map (wsInput ws)
     let progs ← decProgs progs
     pure (serveW { ns := ns, localBare := lb, jidCanon := jidOracle jm } left toks progs)
   | _ => none
@@ -162,10 +176,11 @@ def handleServeW (args : List String) : Option Out :=
 def handleServe (args : List String) : Option Out :=
   match args with
   | [ns, lb, jm, toks, progs] => do
+    let ws := decWs ns
     let ns ← decNs ns
     let lb ← unhexF (if lb == "-" then "" else lb)
     let jm ← decJidMap jm
-    let toks ← decToks toks
+    let toks ← (decToks toks).map (wsInput ws)
     let progs ← decProgs progs
     pure (serve { ns := ns, localBare := lb, jidCanon := jidOracle jm } toks progs)
   | _ => none
